@@ -86,6 +86,14 @@ def gen(rng, kind, tier):
 
 def _gen(rng, kind, tier):
     dim = int(rng.choice([1, 2, 2])) if tier == "quick" else int(rng.choice([1, 2, 2, 3]))
+    if kind == "meta" and rng.random() < 0.012:
+        # grids of the size of real simulations (10^5 cells)
+        shape = [int(rng.integers(300, 520)), int(rng.integers(230, 300))] if rng.random() < 0.7 else [int(rng.integers(70000, 170000))]
+        h = [float(np.round(10 ** rng.uniform(-1.5, 0.5), 4)) for _ in shape]
+        spec = {"family": "cart", "bounds": [[0.0, h[a] * shape[a]] for a in range(len(shape))], "shape": shape, "periodic": [True] * len(shape)}
+        f = {"type": "droplets" if len(shape) == 2 else "noise", "seed": int(rng.integers(1 << 30))}
+        return {"grid": spec, "field": f, "stretch": float(2.0 ** int(rng.integers(-3, 4))), "scale": float(rng.choice([-1.0, 2.0, 1e-3])),
+                "roll": [int(2 * rng.integers(1, n // 4) + 1) for n in shape]}
     if kind == "meta":
         spec = _grid(rng, dim)
         if dim >= 2 and rng.random() < 0.35:
@@ -161,6 +169,12 @@ def _gen(rng, kind, tier):
                 "threshold": str(rng.choice(["0.5", "auto", "mean"])), "stretch": float(2.0 ** int(rng.integers(-4, 5))),
                 "scale": float(rng.choice([2.0, 0.125, 7.0])),
                 "roll": [int(rng.integers(-n, n + 1)) if p else 0 for n, p in zip(spec["shape"], spec["periodic"])]}
+    if kind == "count" and rng.random() < 0.12:
+        # the smallest droplets there are: isolated single cells (and a few two-cell clusters), counted without a minimal radius
+        spec = _grid(rng, int(rng.choice([1, 1, 2])))
+        return {"grid": spec, "field": {"type": "pixels", "seed": int(rng.integers(1 << 30))}, "threshold": "0.5",
+                "stretch": float(2.0 ** int(rng.integers(-4, 5))), "scale": float(rng.choice([2.0, 0.125, 7.0])),
+                "roll": [int(rng.integers(-n, n + 1)) for n in spec["shape"]]}
     if kind == "count" and rng.random() < 0.3:
         # droplets plus many single-cell specks, counted with a minimal radius that removes the specks
         spec = _grid(rng, dim)
@@ -221,6 +235,17 @@ def make_data(spec, f):
                 mark = np.zeros(shape, bool)
                 mark[ii] = True
                 blocked |= _nd.binary_dilation(mark, iterations=2, structure=np.ones((3,) * len(shape)))
+        return data
+    if t == "pixels":
+        data = np.zeros(shape)
+        blocked = np.zeros(shape, bool)
+        for flat in r.permutation(data.size)[: int(r.integers(3, 12))]:
+            ii = np.unravel_index(int(flat), shape)
+            if not blocked[ii]:
+                data[ii] = 1.0
+                mark = np.zeros(shape, bool)
+                mark[ii] = True
+                blocked |= ndimage.binary_dilation(mark, iterations=2, structure=np.ones((3,) * len(shape)))
         return data
     if t == "combs":
         data = np.zeros(shape)
@@ -302,7 +327,13 @@ def stretched(spec, c):
 def ls(rec, spec, data, method, **kw):
     import droplets
 
-    return common.monitored(rec, f"get_length_scale[{method}]", droplets.get_length_scale, field_of(spec, data), method=method, **kw)
+    the_field = field_of(spec, data)
+    keep = np.array(the_field.data, copy=True)
+    call = common.monitored(rec, f"get_length_scale[{method}]", droplets.get_length_scale, the_field, method=method, **kw)
+    # the analysed field belongs to the caller (it may be the state of a running simulation)
+    rec.check(np.array_equal(np.asarray(the_field.data), keep, equal_nan=True), "input-unchanged",
+              f"get_length_scale(method={method}) modified the field it was given (grid shape {spec['shape']})")
+    return call
 
 
 def bin_of(spec):
@@ -415,6 +446,13 @@ def run(case, rec, *, ignore_known=False):
             rec.check(n == ke and rel_same(l0, (vol / ke) ** (1 / dim), 1e-12), "count",
                       f"{ke} well separated droplets (offset {case['field']['offset']}, amplitude {case['field']['amp']}) "
                       f"but {n} were counted and the length is {l0} instead of {(vol / ke) ** (1 / dim)}; {label}")
+        # "detected" means detected by the documented analysis with the options that were given: the same call made
+        # by hand gives the number of droplets the length is built from
+        indep = common.monitored(rec, "locate_droplets", droplets.locate_droplets, field_of(spec, data), **kw)
+        if indep.ok and len(indep.result) >= 1:
+            rec.check(rel_same(l0, (vol / len(indep.result)) ** (1 / dim), 1e-12), "count",
+                      f"droplet counting returned {l0}, but locate_droplets(field, {kw}) finds {len(indep.result)} droplets, i.e. "
+                      f"(box volume {vol} / {len(indep.result)})^(1/{dim}) = {(vol / len(indep.result)) ** (1 / dim)}; {label}")
         if n >= 1:
             rec.check(rel_same(l0, (vol / n) ** (1 / dim), 1e-12), "count",
                       f"droplet counting returned {l0}, but (box volume {vol} / {n} droplets)^(1/{dim}) = {(vol / n) ** (1 / dim)}; {label}")
